@@ -25,6 +25,7 @@ type Obligation struct {
 type Ctx struct {
 	P    *Program
 	Prop string
+	Tier string
 	Obs  []*Obligation
 	// Analysed records what was looked at (functions, call sites) for evidence.
 	Analysed map[string]bool
